@@ -32,6 +32,15 @@ StepClauses(st, prev, w, w2, op) ==
     Fail(op.k \in {"len", "to_2d_array", "slice_index", "slice_value", "to_function"} /\ ~w.yopaque
          /\ ~SeqOK(st.ret, ReadResult(w, op), IF op.k = "to_function" THEN 500 ELSE 50), "impl.read." \o op.k)
 
+(* A call that RAISES although the request respects every documented precondition (e.g. a cubic / spline interpolation that SciPy
+   refuses on fewer than four samples) must still leave a well-formed object, the caller's arrays and the original alone: the
+   state-only clauses of C09, evaluated on the state recorded after the failed call (seed C09k: the new grid was installed
+   before the values were computed, so a late failure left len(x) # len(y)). *)
+StateOnlyClauses(st, op) ==
+    Fail(st.kinds # "ok" \/ Len(st.x) # Len(st.y) \/ ~AllFinite(st.x) \/ ~AllFinite(st.y) \/ ~FStrictlyIncreasing(st.x), "C09.wellformed." \o op.k) \cup
+    Fail(~st.caller /\ op.k # "poke", "C09.caller_modified." \o op.k) \cup
+    Fail(op.k \notin {"normalize_x", "normalize_y"} /\ ~st.orig_same, "C09.original_changed." \o op.k)
+
 (* C08, last sentence: recreate + match after any history of domain operations reproduces the TRANSFORMED averages, i.e. the
    recorded reference.  Judged on the recorded values like C02 (JPipeline): inside a reference interval the recreated grid is
    uniform, so the mean under the target rule is a (half-weighted at the ends for the trapezoid rule) sum of the n samples. *)
@@ -60,7 +69,11 @@ RECURSIVE WH(_, _, _, _)
 WH(e, j, w, prev) ==
     IF j > Len(e.steps) THEN {}
     ELSE LET st == e.steps[j]  op == st.op
-         IN IF OutOfScope(w, op) THEN {}                 \* outside a documented precondition: the rest is not judged
+         IN IF OutOfScope(w, op)                         \* outside a documented precondition: the rest is not judged ...
+            THEN \* ... except that a resampling request on a 2- or 3-sample series which the back end refuses (no documented minimum
+                 \* length exists) must leave a well-formed object behind
+                 IF op.k \in {"interpolate_n", "interpolate_grid"} /\ Len(w.x) >= 2 /\ st.outcome # "ok" /\ ~Rejects(w, op)
+                 THEN StateOnlyClauses(st, op) ELSE {}
             ELSE IF Rejects(w, op)
             THEN \* the missing-argument request is not one of the classes C20 enumerates: its exception class is drift only
                  Fail(st.outcome # "ValueError" /\ op.k # "interpolate_none", "C20.outcome." \o op.k) \cup
@@ -71,7 +84,7 @@ WH(e, j, w, prev) ==
             \* a caller's write into a returned array that is not writable (read-only views of pandas data) or not float-typed
             \* fails in the caller's own code: nothing of the library to judge, the rest of the history is not judged
             ELSE IF op.k = "poke" /\ st.outcome # "ok" THEN {}
-            ELSE IF st.outcome # "ok" THEN {"impl.valid_operation_failed." \o op.k}
+            ELSE IF st.outcome # "ok" THEN {"impl.valid_operation_failed." \o op.k} \cup StateOnlyClauses(st, op)
             ELSE LET w2 == Apply(w, op)
                      cl == StepClauses(st, prev, w, w2, op) \cup PipelineClause(e, j, w)
                  IN \* once the recorded state differs from the specification's (drift, e.g. a bound that coincides with a
